@@ -145,6 +145,14 @@ def replay_file(path, libs=None, timeout=60.0):
     viol, stats, results = evaluate(prof, case, libs, timeout)
     digest = [r.digest() for r in results]
     want = doc["violation"]
+    if str(want.get("oracle", "")).endswith(".repeatable"):
+        # repeat the case: the violation is that event logs differ between executions
+        for k in range(6):
+            viol_k, _, results_k = evaluate(prof, case, libs, timeout)
+            if [r.digest() for r in results_k] != digest:
+                viol.append({"class": "violation", "oracle": want["oracle"], "lifetime": None,
+                             "detail": "event logs differ between repeated executions"})
+                break
     same = [v for v in viol if v.get("oracle") == want.get("oracle") and v.get("class") == want.get("class")]
     return bool(same), viol, digest, doc
 
